@@ -80,6 +80,8 @@ impl SchemaRegistry {
             .take(16)
             .map(char::from)
             .collect();
+        #[cfg(feature = "sim-hooks")]
+        let uid = crate::sim_hooks::uid_override(event_type).unwrap_or(uid);
 
         let record = SchemaRecord {
             uid: uid.clone(),
@@ -110,6 +112,8 @@ impl SchemaRegistry {
             .take(16)
             .map(char::from)
             .collect();
+        #[cfg(feature = "sim-hooks")]
+        let uid = crate::sim_hooks::uid_override(event_type).unwrap_or(uid);
 
         let record = SchemaRecord {
             uid: uid.clone(),
